@@ -665,6 +665,162 @@ theorem fallback_answer_rule (st : Strat) (p : Pred) (l : List XIn) (hacc : (RSt
       split at hok <;> simp_all
   · simp [ownOK] at ho
 
+/-! ### the "at least once" half for layers that run the call in a task of their own (executor)
+
+Whatever the caller does with the call future — polls it, drops it later, drops it at once without a single poll
+(`arrive … gone=1`) — is no event at either boundary of a layer: the acceptor `RSt` never sees it. A layer that has been
+called with a request owes it to its inner service (`RSt.wait`) until it forwards it or answers it itself; the driver
+(`TR.Stack.owed`) demands of a detaching layer (`detaches`: the executor, whose spawned task "continues to run to completion
+when the response future is dropped") that it owes nothing once the runtime has had its turn after an operation. -/
+
+/-- every call a layer has received is still owed, has been forwarded, or was answered by the layer itself -/
+def WInv (s : RSt) : Prop := ∀ t, s.oc t ≤ s.wait t + s.ic t + s.own t
+
+theorem winv_launch (s0 : RSt) (t att : Nat)
+    (h : ∀ t', s0.oc t' ≤ s0.wait t' + s0.ic t' + s0.own t' + (if t' = t then 1 else 0)) : WInv (launch s0 t att) := by
+  intro t'
+  have := h t'
+  by_cases ht : t' = t
+  · subst ht; simp [launch, upd] at this ⊢; omega
+  · simp [launch, upd, ht] at this ⊢; omega
+
+theorem winv_innerCall (c : LCfg) (s s' : RSt) (t : Nat) (hi : WInv s) (hs : innerCallR c s t = some s') : WInv s' := by
+  unfold innerCallR at hs
+  split at hs
+  · cases hs; exact hi
+  · split at hs
+    · rename_i hw
+      cases hs
+      apply winv_launch
+      intro t'
+      have := hi t'
+      by_cases ht : t' = t
+      · subst ht; simp [upd]; omega
+      · simp [upd, ht]; omega
+    · split at hs
+      · split at hs
+        · cases hs
+          apply winv_launch
+          intro t'
+          have := hi t'
+          simp only
+          split <;> omega
+        · cases hs
+      · split at hs
+        · cases hs
+          apply winv_launch
+          intro t'
+          have := hi t'
+          simp only
+          split <;> omega
+        · cases hs
+
+theorem winv_innerRet (c : LCfg) (s s' : RSt) (k t : Nat) (r : RVal) (hi : WInv s) (hs : innerRetR c s k t r = some s') :
+    WInv s' := by
+  unfold innerRetR at hs
+  split at hs
+  · split at hs
+    · cases hs; exact hi
+    · cases hs
+  · split at hs
+    · cases hs; exact hi
+    · cases hs
+
+theorem winv_outerRet (c : LCfg) (s s' : RSt) (t : Nat) (ro : RVal) (hi : WInv s) (hs : outerRetR c s t ro = some s') :
+    WInv s' := by
+  unfold outerRetR at hs
+  split at hs
+  · cases hs; exact hi
+  · split at hs
+    · split at hs
+      · split at hs
+        · cases hs; exact hi
+        · cases hs
+      · split at hs
+        · cases hs
+          intro t'
+          have := hi t'
+          by_cases ht : t' = t
+          · subst ht; simp [upd]; omega
+          · simp [upd, ht]; omega
+        · cases hs
+    · cases hs
+
+theorem winv_step (c : LCfg) (s s' : RSt) (x : XIn) (hi : WInv s) (hs : s.step c x = some s') : WInv s' := by
+  cases x with
+  | outer e =>
+    cases e with
+    | ev e =>
+      cases e with
+      | call i t =>
+        simp only [RSt.step, Option.some.injEq] at hs
+        subst hs
+        intro t'
+        have := hi t'
+        by_cases ht : t' = t
+        · subst ht; simp [upd]; omega
+        · simp [upd, ht]; omega
+      | clone a b => simp only [RSt.step, Option.some.injEq] at hs; subst hs; exact hi
+      | poll a r => simp only [RSt.step, Option.some.injEq] at hs; subst hs; exact hi
+    | ret k t ro => exact winv_outerRet c s s' t ro hi (by simpa [RSt.step] using hs)
+  | inner e =>
+    cases e with
+    | ev e =>
+      cases e with
+      | call i t => exact winv_innerCall c s s' t hi (by simpa [RSt.step] using hs)
+      | clone a b => simp only [RSt.step, Option.some.injEq] at hs; subst hs; exact hi
+      | poll a r => cases r <;> simp only [RSt.step, Option.some.injEq] at hs <;> subst hs <;> exact hi
+    | ret k t r => exact winv_innerRet c s s' k t r hi (by simpa [RSt.step] using hs)
+
+theorem winv_run (c : LCfg) (l : List XIn) : ∀ (s s' : RSt), WInv s → RSt.run c s l = some s' → WInv s' := by
+  induction l with
+  | nil => intro s s' hi h; simp only [RSt.run, Option.some.injEq] at h; subst h; exact hi
+  | cons x tl ih =>
+    intro s s' hi h
+    simp only [RSt.run] at h
+    cases hx : s.step c x with
+    | none => simp [hx] at h
+    | some s1 => simp only [hx] at h; exact ih s1 s' (winv_step c s s1 x hi hx) h
+
+/-- **A layer that owes nothing has forwarded everything it did not answer itself** — in every configuration, for every
+accepted sequence of boundary events (no event of the caller's call future is among them: polled, dropped late, dropped at
+once, all the same): if request `t` is not owed any more (`unforwarded s' [t] = []`, what the driver demands of a detaching
+layer after every operation) then the layer was called with it at most as often as it called its inner service with it plus
+the answers it gave itself. -/
+theorem nothing_owed_means_forwarded (c : LCfg) (hc : c ≠ .blackbox) (l : List XIn) (s' : RSt) (hs : RSt.run c {} l = some s')
+    (t : Nat) (hw : unforwarded s' [t] = []) : cntOC t l ≤ cntIC t l + s'.own t := by
+  have hi := winv_run c l {} s' (by intro t; simp) hs t
+  obtain ⟨a1, a2, _, _⟩ := Stack.moved_run c hc t l {} s' hs
+  simp only at a1 a2
+  have hw0 : s'.wait t = 0 := by
+    simp [unforwarded] at hw
+    omega
+  omega
+
+/-- **The executor forwards every request exactly once, whether or not anybody waits for the answer**: for every accepted
+sequence of events at its two boundaries after which it owes nothing for request `t` and has given no answer of its own to
+it (it has none to give: no protective condition), the inner service was called for `t` exactly as often as the layer was. The
+caller's future does not occur in the statement — a request whose call future was dropped before the spawned task's first
+poll is forwarded like any other (the clause seeded change C20-w7m3 breaks: `if tx.is_closed() { return; }`). -/
+theorem executor_forwards_exactly_once_without_caller (cf : List (String × String)) (rl : String) (l : List XIn) (s' : RSt)
+    (hs : RSt.run (lcfgOf "executor" cf rl) {} l = some s') (t : Nat) (hw : unforwarded s' [t] = []) (ho : s'.own t = 0) :
+    detaches (lcfgOf "executor" cf rl) = true ∧ cntIC t l = cntOC t l := by
+  have e : lcfgOf "executor" cf rl = .wrap "executor" := by simp [lcfgOf]
+  rw [e] at hs ⊢
+  refine ⟨by simp [detaches], ?_⟩
+  have h1 := nothing_owed_means_forwarded (.wrap "executor") (by simp) l s' hs t hw
+  have h2 := layer_forwards_at_most_once (.wrap "executor") (by simp [single]) l (by simp [hs]) t
+  omega
+
+/-- a fire-and-forget request through an executor: called, the caller gone, forwarded in the runtime's next turn — accepted,
+nothing owed; the same log without the forwarding is accepted too (a layer MAY owe: bulkhead queue, a dropped caller of an
+ordinary layer) but leaves the request owed, which the driver reports for a detaching layer -/
+example :
+    (((RSt.run (.wrap "executor") {} [.outer (.ev (.call 1 7)), .inner (.ev (.call 1 7))]).map (unforwarded · [7])) = some []) ∧
+    (((RSt.run (.wrap "executor") {} [.outer (.ev (.call 1 7))]).map (unforwarded · [7])) = some [7]) ∧
+    detaches (.wrap "executor") = true ∧ detaches (.wrap "timelimiter") = false ∧ detaches (.retry 3 .all) = false := by
+  refine ⟨by decide, by decide, rfl, rfl, rfl⟩
+
 /-- **Whole stacks forward at most once**: through any stack of layers none of which has room for a further attempt, the
 wrapped service is called for a request at most as often as the stack was (once, for a caller that sends it once). -/
 theorem stack_forwards_at_most_once (g : List XG) (t : Nat) (cfgs : List LCfg) (hacc : AcceptedFrom g cfgs 0)
